@@ -424,3 +424,16 @@ def run(ctx):
     from rules import listlinks
     listlinks.check(ctx, "R15.3", lambda file, name: file in ("src/emu/system.c", "src/emu/loom.c", "src/emu/proc.c"),
                     minimum=20)
+
+
+_run_base = run
+
+
+def run(ctx):
+    _run_base(ctx)
+    prog = ctx.prog
+    ctx.rule("R15.5", "rank information is collected for every loom whatever the order of the looms: the function of "
+             "system.c that calls loom_set_rank_min is evaluated on 1..3 looms with every combination of looms "
+             "with / without ranks; each loom must be visited and sort_by_rank set exactly when all have ranks")
+    from rules import round3
+    round3.check_set_sort_criteria(ctx, "R15.5")
